@@ -80,6 +80,10 @@ class Content:
         self._get_bytes = get_bytes
 
     def __eq__(self, other):
+        if not (hasattr(other, "content_type") and hasattr(other, "iter_bytes")):
+            # Not a content object at all (None, say): not equal, rather than
+            # an AttributeError.
+            return NotImplemented
         return self.content_type == other.content_type and _join_b(
             self.iter_bytes()
         ) == _join_b(other.iter_bytes())
